@@ -145,14 +145,16 @@ class SpoolGen:
                     sim.reset()
                 else:
                     if rng.random() < p_big:
-                        sz = rng.choice([remaining, remaining + 1, N, N + 1, 2**31, 2**63, SIZE_MAX - 1, SIZE_MAX, 0])
+                        sz = rng.choice([remaining, remaining + 1, N, N + 1, 2**31, 2**32, 2**32 + 1, 2**63, SIZE_MAX - 1, SIZE_MAX, 0])
                     else:
                         sz = rng.choice([0, 1, 1, 2, 3, 4, 5, 8, 8, 13, 16, remaining, max(remaining - 1, 0)])
                     before = sim.free
                     if rng.random() < 0.3:
-                        if sz > 2**32:
+                        if sz >= 2**31:
+                            # products that overflow although only one factor is huge, and both-32-bit factors
                             a, b = rng.choice([(1, sz), (sz, 1), (0, sz), (sz, 0), (2**32, 2**32), (2**63, 2),
-                                               (2**63 + 1, 2), (SIZE_MAX, SIZE_MAX), (3, sz), (sz, 2)])
+                                               (2**63 + 1, 2), (2, 2**63 + 1), (2**61 + 1, 8), (8, 2**61 + 1),
+                                               (2**32 + 1, 2**32), (SIZE_MAX, SIZE_MAX), (3, sz), (sz, 2)])
                         else:
                             d = rng.choice([1, 2, 4]) if sz % 4 == 0 and sz else 1
                             a, b = (d, sz // d) if rng.random() < 0.5 else (sz // d, d)
